@@ -25,7 +25,7 @@ def uses_outside_shape(v, name):
                 return True
             if len(x) == 3 and x[0] == 'attr' and x[1] == ('sym', name) and x[2] in ('shape', 'dtype', 'ndim'):
                 return False
-            return any(walk(i) for i in x[1:])
+            return any(walk(i) for i in x)
         return False
     return walk(v)
 
